@@ -226,7 +226,14 @@ func (l *Lifter) brBlock(stmts []ast.Stmt, cur *rcur, counts map[string]*countVa
 				continue
 			}
 		}
+		l.narrowMul = token.NoPos
 		if rel, e, ok := l.lenCheck(s); ok {
+			if l.narrowMul.IsValid() {
+				// the demand was computed in a type that wraps: only its constant
+				// part is a bound on anything
+				l.fail("wrapcheck", "", l.narrowMul, "the length check multiplies a count taken from the wire in an integer narrower than 64 bits: for large counts the product wraps and the check passes")
+				e = Const(e.C)
+			}
 			var end Lin
 			if rel == "at" {
 				end = cur.pos().Add(e)
